@@ -87,6 +87,28 @@ func Centroid(g geom.Geom) (geom.Point, error) {
 	var A, xA, yA float64
 	switch g.(type) {
 	case geom.Polygon:
+		// The sums below are cubic in the coordinates. When the cubes would
+		// leave the floating point range, the centroid of a copy scaled by a
+		// power of two (which is exact) is calculated and scaled back.
+		m := 0.
+		for _, r := range g.(geom.Polygon) {
+			for _, v := range r {
+				m = math.Max(m, math.Max(math.Abs(v.X), math.Abs(v.Y)))
+			}
+		}
+		if (m >= 0x1p300 || (m <= 0x1p-300 && m > 0)) && !math.IsInf(m, 0) {
+			_, e := math.Frexp(m)
+			k := math.Ldexp(1, e-1)
+			q := make(geom.Polygon, len(g.(geom.Polygon)))
+			for i, r := range g.(geom.Polygon) {
+				q[i] = make(geom.Path, len(r))
+				for j, v := range r {
+					q[i][j] = geom.Point{X: v.X / k, Y: v.Y / k}
+				}
+			}
+			c, err := Centroid(q)
+			return geom.Point{X: c.X * k, Y: c.Y * k}, err
+		}
 		for _, r := range g.(geom.Polygon) {
 			a := area(r)
 			cx, cy := 0., 0.
